@@ -119,7 +119,11 @@ def _reexec_with_asan():
     if os.environ.get("AKV_ASAN_READY") == "1":
         return
     env = dict(os.environ)
-    env["LD_PRELOAD"] = rt + (":" + env["LD_PRELOAD"] if env.get("LD_PRELOAD") else "")
+    # libstdc++ must be loaded together with the ASan runtime, otherwise its __cxa_throw interceptor finds no
+    # real function (the python executable itself does not link libstdc++)
+    cxx = subprocess.run([build.CXX, "-print-file-name=libstdc++.so.6"], stdout=subprocess.PIPE, text=True).stdout.strip()
+    cxx = os.path.realpath(cxx) if os.path.sep in cxx else cxx
+    env["LD_PRELOAD"] = rt + ":" + cxx + (":" + env["LD_PRELOAD"] if env.get("LD_PRELOAD") else "")
     env["ASAN_OPTIONS"] = "detect_leaks=0:abort_on_error=1:allocator_may_return_null=1:handle_segv=0:" \
                           "detect_odr_violation=0:log_path=" + os.path.join(VERIF, ".build", "asan", "log")
     env["UBSAN_OPTIONS"] = "halt_on_error=1:abort_on_error=1:print_stacktrace=1"
